@@ -76,7 +76,10 @@ func ZZVerif_C06_Detect() {
 		zzverif.Assert("tracked blocks loaded", rd2.loadTrackedHeaders() == nil)
 		zzverif.Assert("subscriber restored with its blocks", rd2.trackedBlocks["syncer"] != nil && rd2.trackedBlocks["syncer"].len() == nt)
 		rd = rd2
-		sub = rd.subscriptions["syncer"]
+		// the driver subscribes again after the detector has been started
+		sub, err = rd.Subscribe("syncer")
+		zzverif.Assert("subscribed again", err == nil && sub != nil)
+		zzverif.Assert("subscribing again keeps the tracked blocks", rd.trackedBlocks["syncer"] != nil && rd.trackedBlocks["syncer"].len() == nt)
 		sub.ReorgedBlock = make(chan uint64, 8)
 		sub.ReorgProcessed = make(chan bool, 8)
 		for i := 0; i < 8; i++ {
@@ -160,6 +163,8 @@ func ZZVerif_C06_StopDuringReorg() {
 		zzverif.Assert("detector recreated", err == nil)
 		if err == nil {
 			zzverif.Assert("tracked blocks loaded", rd2.loadTrackedHeaders() == nil)
+			_, errS := rd2.Subscribe("syncer") // the driver subscribes again after the restart
+			zzverif.Assert("subscribed again", errS == nil)
 			hl := rd2.trackedBlocks["syncer"]
 			for i := nt - k; i < nt; i++ {
 				ok := hl != nil
